@@ -61,6 +61,9 @@ def verify_target(target, timeout_ms=20000, verbose=False, repo=None):
         for ob in p.obligations:
             discharge(ob, timeout_ms)
             res.obligations.append(ob)
+    dead = sorted(k for k, (n, ok) in ex.stats.get("callret", {}).items() if n > 0 and ok == 0)
+    if dead:
+        res.undecided = "VACUOUS call sites: normal return infeasible at every call site of " + ", ".join(dead)
     if ex.unsupported:
         res.undecided = f"unsupported on {res.outcomes.get('unsupported', 0)} path(s): {ex.unsupported[0]}"
     res.secs = time.time() - t0
